@@ -7,8 +7,11 @@
      then   per instance (own goroutine): engine create; WAL log create-workload;
             store.AddWorkload (+ marker decrement); engine start; inspect;
             WAL commit create-workload (deferred in doDeployOneWorkload)
-     defers (LIFO): WAL commit of every create-processing entry; WAL commit of the
-            allocate-workload entry; store.DeleteProcessing per node (+ close)
+     defers (LIFO, after the repair of this property): store.DeleteProcessing per
+            node; WAL commit of every create-processing entry; WAL commit of the
+            allocate-workload entry; close.  (Before the repair the markers were
+            deleted LAST: a crash after the commit of a create-processing entry left
+            a marker nothing deletes - Example old_order_marker_leak.)
    A crash point is a set of executed calls closed under program order; because
    the calls of different instances / nodes touch different records, the state
    at the crash is determined by HOW FAR each part got: a [gconf].  [gstep] is
@@ -75,9 +78,11 @@ Definition valid_node (g : gconf) (nc : nconf) : bool :=
   && implb (marker_made nc) (proc_logged nc)
   (* instances start only after the whole condition step *)
   && implb (negb (all_stage is_S0 nc)) (forallb marker_made (per_node g))
-  (* the deferred commits run only after every instance finished *)
-  && implb (proc_committed nc) (forallb (all_stage is_S6) (per_node g) && forallb marker_made (per_node g))
-  && implb (marker_deleted nc) (alloc_committed g).
+  (* the deferred clean-up runs only after every instance finished: first every
+     marker is deleted, then the create-processing entries are committed *)
+  && implb (proc_committed nc) (forallb (all_stage is_S6) (per_node g) && forallb marker_made (per_node g)
+                                && forallb marker_deleted (per_node g))
+  && implb (marker_deleted nc) (forallb (all_stage is_S6) (per_node g) && forallb marker_made (per_node g)).
 Definition valid (g : gconf) : bool :=
   forallb (valid_node g) (per_node g)
   && implb (alloc_committed g) (alloc_logged g && forallb proc_committed (per_node g)).
@@ -151,7 +156,8 @@ Definition usage_ok (ns : nstate) : bool := Z.eqb (usage ns) (recorded_sum ns).
 Definition marker_ok (ns : nstate) : bool := match marker ns with None => true | Some _ => false end.
 Definition insts_ok (before after : nstate) : bool := all2 inst_ok (insts before) (insts after).
 
-(* the window in which the marker leaks: its WAL entry is committed, the marker not yet deleted *)
+(* the window in which a marker would leak: its WAL entry is committed, the marker not
+   yet deleted (unreachable after the repair: see valid_no_leak_window) *)
 Definition leak_window (nc : nconf) : bool :=
   marker_made nc && negb (marker_deleted nc) && proc_committed nc.
 
@@ -225,7 +231,7 @@ Definition gstep (g : gconf) (c : gcall) : option gconf :=
       end
   | GCommitProc n =>
       match nth_nc n with
-      | Some nc => if cond_complete g && all_done g && negb (proc_committed nc)
+      | Some nc => if cond_complete g && all_done g && forallb marker_deleted (per_node g) && negb (proc_committed nc)
                    then Some (set n (fun x => mkNc (alloc_done x) (proc_logged x) (marker_made x) (stages x) true (marker_deleted x)))
                    else None
       | None => None
@@ -235,7 +241,7 @@ Definition gstep (g : gconf) (c : gcall) : option gconf :=
       then Some (mkGc (alloc_logged g) true (per_node g)) else None
   | GDeleteProc n =>
       match nth_nc n with
-      | Some nc => if alloc_committed g && negb (marker_deleted nc)
+      | Some nc => if cond_complete g && all_done g && negb (marker_deleted nc)
                    then Some (set n (fun x => mkNc (alloc_done x) (proc_logged x) (marker_made x) (stages x) (proc_committed x) true))
                    else None
       | None => None
